@@ -489,10 +489,10 @@ script timeline0 {
     ins_10(100);
 +10:
     {"E"}: ins_10(1);
-    {"HL"}: ins_11(2);
+    {"HL"}: ins_10(2);
 +20:
     {"N"}: ins_10(3);
-    ins_11(4);
+    ins_10(4);
 }
 script timeline1 {
     {"L"}: ins_10(7);
